@@ -162,7 +162,7 @@ fn step(x: f64, k: i32) -> f64 {
 
 fn approx_exp_part(ctx: &mut Ctx, tier: Tier) {
     let ccs = ccs_values();
-    let grid = if tier.thorough() { 4096 } else { 512 };
+    let grid = if tier.thorough() { 16384 } else { 512 };
     let mut xs: Vec<f64> = (0..=grid).map(|k| rs::LN2 * (k as f64) / (grid as f64)).collect();
     for k in 1..=64 {
         xs.push(step(0.0, k));
